@@ -152,6 +152,13 @@ def r08_3(ctx):
             return None
         f = cands[0]
     crc_l = [l for l in f.locals if f.local_ty(l) == 'u32' and f.locals[l].get('name') and l > f.arg_count]
+    if len(crc_l) > 1:
+        # the running crc is the one carried around the loops AND initialised before them (locals of an inlined block helper
+        # live inside one iteration only)
+        bodies = set().union(*f.loops().values()) if f.loops() else set()
+        carried = {T[0] for h, ts in f.loop_havoc().items() for T, _ in ts if len(T) == 1}
+        outside = {d.target[0] for d in f.defs() if d.kind in ('assign', 'call') and len(d.target) == 1 and d.bid not in bodies}
+        crc_l = [l for l in crc_l if l in carried and l in outside]
     buf_l = [l for l in range(1, f.arg_count + 1) if f.local_ty(l).endswith('[u8]')]
     if len(crc_l) != 1 or len(buf_l) != 1:
         ctx.undecided(R, 'locals', 'cannot identify the running crc / buffer variables (%s / %s)' % (crc_l, buf_l), fn=f)
